@@ -198,6 +198,10 @@ class TypeState:
         self.funcs = {f.key: f for f in M.ir_funcs()}
         # a private module-level function of spydrnet/ir is code of the methods that call it (see pairing.Pairing): analysed spliced in
         modfuns = {f.name for f in self.funcs.values() if f.cls is None and f.name.startswith("_") and not f.name.startswith("__")}
+        from .inline import inlined_view, calls_iterating_helper
+        for k, f in list(self.funcs.items()):
+            if calls_iterating_helper(self.P, f):
+                self.funcs[k] = inlined_view(self.P, f)
         if modfuns:
             from .inline import inlined_view
             from .core import walk_local
